@@ -25,6 +25,7 @@ type natCfg struct {
 	oneToOne           int           // >0: 1:1 mode with that many IP pairs
 	viaRouter          bool          // inbound datagrams enter through Router.onInboundChunk of a real LAN router (not the translator alone)
 	twoIPs             bool          // NAPT router that holds a second external address (only the first is used for mappings)
+	pairedLocal        bool          // NAPT router whose external addresses were written as "external/local" pairs (the pairing means nothing outside 1:1 mode)
 }
 
 func depName(d vnet.EndpointDependencyType) string {
@@ -41,6 +42,9 @@ func (c natCfg) String() string {
 	}
 	if c.viaRouter {
 		x += ",behind a LAN router"
+	}
+	if c.pairedLocal {
+		x += ",external IPs paired with local IPs"
 	}
 	return fmt.Sprintf("map=%s,filt=%s,life=%v%s", depName(c.mapping), depName(c.filtering), c.life(), x)
 }
@@ -115,6 +119,11 @@ func newNatSys(mode string, cfg natCfg, alpha []string, lastOp *string) *natSys 
 		mapped = []string{natRouterIP}
 		if cfg.twoIPs {
 			mapped = append(mapped, "1.2.3.5")
+		}
+		if cfg.pairedLocal {
+			for j := range mapped {
+				local = append(local, fmt.Sprintf("10.0.0.%d", 1+j))
+			}
 		}
 	}
 	var z *vnet.ZZNAT
@@ -540,7 +549,9 @@ func runNATBody(mode, tier string, shard, shards int, rep *SeqReport, lastOp, cu
 		cfgs = append(cfgs, natCfg{oneToOne: k})
 	}
 	cfgs = append(cfgs, natCfg{mapping: vnet.EndpointIndependent, filtering: vnet.EndpointIndependent, twoIPs: true},
-		natCfg{mapping: vnet.EndpointAddrPortDependent, filtering: vnet.EndpointAddrDependent, twoIPs: true})
+		natCfg{mapping: vnet.EndpointAddrPortDependent, filtering: vnet.EndpointAddrDependent, twoIPs: true},
+		natCfg{mapping: vnet.EndpointIndependent, filtering: vnet.EndpointAddrPortDependent, pairedLocal: true},
+		natCfg{mapping: vnet.EndpointAddrDependent, filtering: vnet.EndpointAddrDependent, twoIPs: true, pairedLocal: true})
 	depth, maxStates := 5, int64(100000)
 	if thorough {
 		depth, maxStates = 7, 600000
